@@ -605,3 +605,86 @@ Proof.
   unfold scheduled. cbn [scheduleCode].
   destruct (repInReps repID (sc_reps ss) && (n - firstInCycle r (sc_cycle ss) n =? sc_rsq ss)); reflexivity.
 Qed.
+
+(** * Audio by $Time$: the reference segment that contains the audio time *)
+Section AudioTime.
+Variable r : rep.
+Variable loopMS : Z.
+Hypothesis W : wf r loopMS.
+
+Lemma searchIdx_unique (f : seg -> bool) l i :
+  0 <= i < lenZ l -> (forall j, 0 <= j < i -> f (atL l j) = false) -> f (atL l i) = true ->
+  searchIdx f l = i.
+Proof.
+  intros Hi Hb Ha. pose proof (searchIdx_range f l) as Hr.
+  destruct (Z_lt_ge_dec (searchIdx f l) i) as [Hlt|Hge].
+  - pose proof (searchIdx_at f l ltac:(lia)) as H. rewrite Hb in H by lia. discriminate.
+  - destruct (Z.eq_dec (searchIdx f l) i) as [|Hne]; [assumption|].
+    pose proof (searchIdx_before f l i ltac:(lia)) as H. congruence.
+Qed.
+
+Lemma refMetaFromTime_spec c ats sd t n now :
+  0 < ats -> 0 < sd -> t mod sd = 0 -> 0 <= t -> t * ts r < two64 -> repDuration r < two64 -> 0 <= n ->
+  S r n <= t * ts r / ats < E r n ->
+  refMetaFromTime r c ats sd t now =
+  timed (checkTime (E r n + startS c * ts r) (ts r) now (tsbdS c) (ato c))
+    (TOk {| origTime := st (segAt r (n mod nsegs r)); newTime := S r n;
+            origNr := snr (segAt r (n mod nsegs r));
+            newNr := u32 (u32 n + u32 (startNr c));
+            origDur := u32 (sdur (segAt r (n mod nsegs r))); newDur := u32 (sdur (segAt r (n mod nsegs r)));
+            mtimescale := u32 (ts r) |}).
+Proof.
+  intros Hats Hsd Hmod Ht Htb HD Hn [HR1 HR2].
+  pose proof (N_pos r loopMS W) as HN. pose proof (D_pos r loopMS W) as HDp. pose proof (wf_ts _ _ W) as Hts.
+  set (N := nsegs r) in *. set (D := repDuration r) in *.
+  set (q := n / N). set (i := n mod N).
+  assert (Hi : 0 <= i < N) by (unfold i; lia).
+  assert (Hq : 0 <= q) by (unfold q; apply Z.div_pos; lia).
+  assert (HSn : S r n = q * D + st (segAt r i)) by reflexivity.
+  assert (HEn : E r n = q * D + en (segAt r i)) by reflexivity.
+  pose proof (st_nonneg r loopMS W i Hi) as Hst0. pose proof (seg_pos r loopMS W i Hi) as Hsp.
+  pose proof (en_le_dur r loopMS W i Hi) as Hed. fold D in Hed.
+  set (R := t * ts r / ats) in *.
+  unfold refMetaFromTime. destruct (sd =? 0) eqn:E1; [lia|]. rewrite Hmod. cbn [Z.eqb negb].
+  fold D. rewrite (u64_id D) by lia. destruct (ats =? 0) eqn:E2; [lia|].
+  rewrite (u64_id (t * ts r)) by nia. fold R. destruct (D =? 0) eqn:E3; [lia|].
+  assert (HRq : R / D = q) by (symmetry; apply (Z.div_unique _ _ _ (R - q * D)); lia).
+  rewrite HRq.
+  destruct (segs r) as [|s0 sl] eqn:Esegs; [destruct (wf_nonempty _ _ W Esegs)|]. rewrite <- Esegs.
+  assert (Hidx : searchIdx (fun s => en s >? R - q * D) (segs r) = i).
+  { apply searchIdx_unique; [exact Hi| |].
+    - intros j Hj. rewrite <- segAt_atL.
+      pose proof (seg_mono r loopMS W j i ltac:(lia) ltac:(lia) ltac:(fold N; lia)). lia.
+    - rewrite <- segAt_atL. lia. }
+  rewrite Hidx. rewrite (segAt_ok r i Hi).
+  destruct (q * D + en (segAt r i) =? 0) eqn:E4; [lia|].
+  rewrite HEn, HSn. fold N.
+  replace (i + q * N) with n by (unfold i, q; lia).
+  reflexivity.
+Qed.
+
+(** An audio request by $Time$ whose time lies in reference segment n is answered by the schedule of n. *)
+Lemma segAnswer_audio_time c codes repID ats sd t n now base :
+  startS c = 0 -> startNr c = 0 -> repDuration r < two64 -> Forall (goodCode r) codes -> codes <> [] ->
+  0 <= n < two32 -> S r n < two63 -> ts r < two32 -> 0 <= now ->
+  0 < ats -> 0 < sd -> t mod sd = 0 -> 0 <= t -> t * ts r < two64 ->
+  S r n <= t * ts r / ats < E r n ->
+  segAnswer r loopMS c codes repID (Some (ats, sd)) ByTime t now base =
+  timedAnswer (checkTime (E r n) (ts r) now (tsbdS c) (ato c)) (scheduled r codes repID n base).
+Proof.
+  intros Hst Hsn HD Hgood Hne Hn HS Hts Hnow Hats Hsd Hmod Ht Htb HR.
+  unfold segAnswer. rewrite Hst. cbn [Z.mul].
+  destruct (now <? 0) eqn:E0; [lia|]. destruct codes as [|c0 cs] eqn:Ec; [congruence|]. rewrite <- Ec in *.
+  pose proof (wf_ts _ _ W). pose proof (S_nonneg r loopMS n W ltac:(lia)) as HS0.
+  unfold findSegMeta. rewrite u64_id by (unfold two64 in *; nia).
+  rewrite (refMetaFromTime_spec c ats sd t n now) by (try assumption; lia).
+  rewrite Hst, Hsn. cbn [Z.mul]. rewrite Z.add_0_r.
+  destruct (checkTime (E r n) (ts r) now (tsbdS c) (ato c)); cbn [timed timedAnswer]; [|reflexivity|reflexivity].
+  unfold calcStatusCode. cbn [newTime mtimescale newNr].
+  rewrite i64_id by (unfold two63 in *; lia). change (u32 0) with 0. rewrite Z.add_0_r.
+  rewrite !u32_id by (try lia; rewrite u32_id; lia).
+  rewrite (statusLoop_spec r loopMS W c repID n codes Hst Hsn HD Hgood ltac:(lia)). unfold scheduled.
+  destruct (scheduleCode r codes repID n =? 0); reflexivity.
+Qed.
+
+End AudioTime.
